@@ -288,4 +288,29 @@ func (p *Proxy) Stop() {
 	p.cleanup()
 }
 
-func (p *Proxy) cleanup() { os.RemoveAll(p.Dir) }
+func (p *Proxy) cleanup() {
+	if os.Getenv("VERIF_KEEP_PROXY_DIR") != "" {
+		return
+	}
+	os.RemoveAll(p.Dir)
+}
+
+// RunQueueWait is the total time the proxy's threads have spent runnable but waiting for a CPU (from
+// /proc/<pid>/task/*/schedstat); the difference over an interval tells machine overload from proxy behaviour.
+func (p *Proxy) RunQueueWait() time.Duration {
+	if p.cmd == nil || p.cmd.Process == nil {
+		return 0
+	}
+	files, _ := filepath.Glob(fmt.Sprintf("/proc/%d/task/*/schedstat", p.cmd.Process.Pid))
+	var ns int64
+	for _, f := range files {
+		b, err := os.ReadFile(f)
+		if err != nil {
+			continue
+		}
+		var run, wait int64
+		fmt.Sscan(string(b), &run, &wait)
+		ns += wait
+	}
+	return time.Duration(ns)
+}
